@@ -179,7 +179,7 @@ func ruleWildcardOpt(c *Ctx, r *Report) {
 
 // ruleDeletePrune: R-DELETE-PRUNE (C12).
 func ruleDeletePrune(c *Ctx, r *Report) {
-	r.Rule("R-DELETE-PRUNE", "every recursive descent in retrieveNodeContainer/List/OrderedList that can run under delete is followed, under args.delete, by an emptiness test and a removal of the emptied child; creation (modifyRoot) and wildcard/partial-key descents are the documented exceptions", 7)
+	r.Rule("R-DELETE-PRUNE", "every recursive descent in retrieveNodeContainer/List/OrderedList that can run under delete is followed, under args.delete, by an emptiness test and a removal of the emptied child; creation (modifyRoot) and wildcard/partial-key descents are the documented exceptions", 5)
 	for _, name := range retrieveFamily[1:] {
 		f := c.MustFunc(r, "ytypes", name)
 		if f == nil {
